@@ -45,6 +45,16 @@ def run_streams(out, mod, binary, tier, seed, only_request=None):
             if only_request is not None and req != only_request:
                 continue
             model, spec = fw.split_answer(ans)
+            # verdict of the statement-grammar model (lean/Hcl/Model/ParserStmts.lean) on the text of the request: the driver
+            # parses the text itself and compares with the AST the real parser produced (or with its rejection)
+            stmts_verdict = None
+            if "stmts-model-" in spec:
+                body, _, verdict = spec.partition("\x00")
+                toks = verdict.split()
+                sv = [t for t in toks if t.startswith("stmts-model-")]
+                stmts_verdict = sv[0] if sv else None
+                rest = [t for t in toks if not t.startswith("stmts-model-")]
+                spec = body + ("\x00" + " ".join(rest) if rest else "")
             if impl == "HANG":
                 # the watchdog of the harness (harness/src/watch.rs): the real code did not come back from this input
                 j = {"corr": False, "oracle": False, "key": req, "cats": ["hang"],
@@ -52,6 +62,11 @@ def run_streams(out, mod, binary, tier, seed, only_request=None):
                              % os.environ.get("HCLV_HANG_SECS", "60")}
             else:
                 j = st["judge"](req, impl, model, spec)
+            if stmts_verdict is not None:
+                out.count(st["name"] + ":" + stmts_verdict)
+                if stmts_verdict not in ("stmts-model-agree", "stmts-model-rejects"):
+                    j["corr"] = False
+                    model = model + " [" + stmts_verdict + ": the statement-grammar model and the real parser disagree on this text]"
             out.case(st["name"], req, j.get("key"), sample=(i % max(1, len(cases) // 3) == 0))
             for c in j.get("cats", ()):
                 out.count(st["name"] + ":" + c)
